@@ -17,6 +17,8 @@ def find(prop, cid):
     raise KeyError(cid)
 
 known = [
+    {"id": "F20", "property": "C08", "status": "known", "case_id": "C08-F20",
+     "what": "the grammar lets whitespace separate '{{!' from '--', so a compact comment whose text begins with '--' ({{! ---}}) opens a block comment when a later '--}}' exists: '|x{{! ---}}y|x{{! ---}}y|' renders '|xy|' although 'x{{! ---}}y' alone renders 'xy' (the leniency is pinned by grammar::test_comment, so it is recorded, not repaired)"},
     {"id": "F12", "property": "C13", "status": "known", "case_id": "C13-F12",
      "what": "a tag whose name is a subexpression, {{(h)}}, invokes h twice per evaluation (expand_as_name, then again in Helper::try_from_template); witness {{(cnt)}} prints 1 instead of 0"},
     {"id": "F15", "property": "C13", "status": "known", "case_id": "C13-F15",
